@@ -9,7 +9,9 @@ claim("C01", U + "For bare single-operator programs - Atom[c], Atom[c1,c2] (flag
 claim("C02", U + "Same programs: match start = leftmost admissible position, match end = longest admissible run for greedy operators and "
       "shortest for reluctant ones (zero-occurrence first); complete yield order of the GreedyFixed (strictly descending, never below "
       "min, body length 1 and 2) and ReluctantFixed (ascending) iterators; prefix scan with a proper, self-overlapping prefix "
-      "(thorough). Offsets are char offsets over all scalar values. Priority between alternatives / earlier-term dominance is outside.",
+      "(thorough); the quantifier lowering in the compiler (piece(), verbatim slice) gives every quantified term the right bounds and "
+      "the right greedy/reluctant flag. Offsets are char offsets over all scalar values. Priority between alternatives / "
+      "earlier-term dominance is outside.",
       "DESIGN.md 4 C02")
 claim("C03", U + "Bare Capture(1,Atom[c]): group span = sub-match span, paren_count, group text, back-reference arrays; absent group "
       "absent after a failed search; ONE SEARCH FROM AN ARBITRARY PRIOR capture/back-reference state leaves exactly the fresh-matcher "
@@ -29,19 +31,31 @@ claim("C06", U + "Decided by unwinding assertions with stated bounds: every next
 claim("C07", "Flag clause and two tables only: ReFlags::new(f, dialect) is Ok iff f in [smixq]*(;[gkK]*)? (q only XPath), each flag bit "
       "parsed correctly, else InvalidFlags - all ASCII strings <=3 (4 thorough); get_category_group accepts exactly the 37 XSD category "
       "names (Cs excluded) and returns the right group - all ASCII names <=2; ReCompiler::bracket accepts {a,b} iff digits with a<=b, "
-      "{a} and {a,} iff digit, with the right bounds - all chars. Acceptance of whole patterns is outside (parser not executable "
-      "on symbolic text).", "DESIGN.md 4 C07")
+      "{a} and {a,} iff digit, with the right bounds - every text '{'+5 chars; ReCompiler::escape (verbatim slice) accepts exactly the "
+      "XSD/XPath escapes and returns the right kind (char, which class and whether complemented, back-reference number) for every "
+      "text backslash+6 chars, inside/outside classes; ReCompiler::piece (verbatim slice) accepts every quantifier shape incl. a "
+      "reluctant marker after a quantified anchor. Acceptance of whole patterns (balanced groups, class syntax) is outside - the "
+      "recursive parser is not executable on symbolic text.", "DESIGN.md 4 C07")
 claim("C08", "Search-loop shortcuts and two local soundness conditions only: bare programs with prefix / initial_char_class / "
       "minimum_length / OPT_HASBOL set as ReProgram::new sets them give exactly the oracle answers of their shortcut-free twins "
       "(C01/C02 harnesses), incl. case-blind prefix scan and line seeking; first-set of a literal contains every character its first "
       "char can match (real ICU closure, all x); CharacterClass::is_disjoint has no false positives for {x} vs [lo,hi) incl. ranges "
       "beyond the 100-char scan threshold; operators probed beyond the input end by positional preconditions do not panic. "
       "Derivation of the shortcut fields, no_ambiguity and optimize() themselves are outside.", "DESIGN.md 4 C08")
+claim("C09", "SLICE SCOPE. ReCompiler::parse_character_class and CharacterClassBuilder's union/complement/difference/build, extracted "
+      "verbatim on every run, with every set represented by the membership of ONE symbolic probe character (exact for that "
+      "character) - so each statement holds for all probes at once: [a], [ab], [a-b] denote exactly those characters (all non-meta "
+      "a,b; reversed ranges rejected), with flag i also every case counterpart of every member of a range (ranges <=3 chars); "
+      "[\\e] for every escape char e denotes its set, \\S \\D \\W \\I \\C being complements; for all backslash-free group contents "
+      "G,H (<=3 / <=2 chars): [^G] = complement of [G] and accepted iff [G] is, [G-[H]] = [G] minus [H], [GH] = union. Outside: the "
+      "contents of \\d \\w \\i \\c \\p{..} (ICU data, C10), escapes inside law operands, nesting deeper than one subtraction, "
+      "classes under quantifiers/groups, and the real ICU inversion-list builder (replaced by the probe stand-in).", "DESIGN.md 4 C09")
 claim("C11", U + "equal_case_blind(a,b) = (a==b or equal simple-lowercase images) for ALL pairs (lower-casing modelled arithmetically), "
       "symmetric, reflexive; the real ICU mapping agrees with the model on all ASCII pairs (quick) and on Latin-1/Greek/Cyrillic/"
       "Deseret one-to-one ranges (thorough); Atom[c1,c2] and BackReference under flag i match position-wise case-blind, without i "
-      "identical only; case-blind prefix scan; case-blind first-set contains the literal and its counterpart. Case closure of class "
-      "members at parse time is outside.", "DESIGN.md 4 C11")
+      "identical only; case-blind prefix scan; case-blind first-set contains the literal and its counterpart; case closure of class "
+      "members and of every member of a class range at parse time (class-parser slice, g_class_base_i). The subtraction-path "
+      "closure gap ([xa-[q]] under i) is a known, natively confirmed defect outside the harness' assumptions.", "DESIGN.md 4 C11")
 claim("C12", "Bol/Eol::matches_iter succeed exactly at the positions the statement names for every input <=3 chars over all scalar "
       "values, every position, flag m on/off (incl. no ^ after a final newline); the OPT_HASBOL fast path with newline seeking "
       "agrees with the leftmost-line-start oracle; '.' with/without s as a static class in the search loop. Anchors inside larger "
@@ -59,24 +73,28 @@ claim("C15", "The per-match substitution step of ReMatcher::replace (latch + exp
       "consecutive matches: output follows the $N (single digit for <=9 groups, longest valid number otherwise), $0, \\$, \\\\ rules; "
       "InvalidReplacementString iff a $ lacks a digit or a \\ lacks $ or \\; the simple_replacement latch. The outer scan loop "
       "(copying unmatched text) is outside.", "DESIGN.md 4 C15")
-claim("C17", "Flag gate only: ReFlags::new rejects q iff the dialect is XSD and otherwise parses flags identically (all ASCII strings "
-      "<=3, 4 thorough). The syntactic gates in the parser (reluctant quantifiers, (?:, back-references, \\$, ^ $) are outside.",
-      "DESIGN.md 4 C17")
+claim("C17", "Dialect gates at unit level: ReFlags::new rejects q iff the dialect is XSD and otherwise parses flags identically (all "
+      "ASCII strings <=3, 4 thorough); ReCompiler::escape (verbatim slice) rejects \\$ and back-references under XSD everywhere, "
+      "classes included, and agrees with XPath on every other escape; ReCompiler::piece (verbatim slice) rejects every reluctant "
+      "quantifier under XSD. The gates in parse_expr / parse_terminal / parse_atom ((?:, ^ and $ as ordinary characters) and the "
+      "agreement of both dialects on whole patterns are outside.", "DESIGN.md 4 C17")
 claim("C19", U + "BackReference::matches_iter yields pos+(e-s) iff the input at pos repeats input[s..e] (position-wise case-blind under "
       "i), pos for an empty capture and pos for a group that has not participated, for every recorded span, input <=3 chars (4 "
       "thorough) over all scalar values, every position; a bare Capture records its span in both back-reference arrays; the arrays "
-      "are fresh for every match attempt whatever an earlier search left behind. The multi-digit \\N rule and captures after "
-      "backtracking are outside.", "DESIGN.md 4 C19")
+      "are fresh for every match attempt whatever an earlier search left behind, and describe the activation that yielded when one "
+      "group is active twice; the multi-digit \\N rule (longest number not exceeding the groups opened so far, group closed, not in "
+      "a class, remaining digits literal) in ReCompiler::escape (verbatim slice). Captures after backtracking through alternatives "
+      "and loops are outside.", "DESIGN.md 4 C19")
 claim("C20", "Between single-operator programs only: GreedyFixed(X,1,1) = X, UnambiguousRepeat(X,n,n) = GreedyFixed(X,n,n), "
       "ReluctantFixed and GreedyFixed agree on is_match and match start, one-char class {c} = literal c - each side equals the same "
-      "closed-form oracle for all c and all inputs in bound; GreedyFixed with a 2-char body never yields below its minimum. Which "
-      "operator the compiler picks for a spelling, flattening and the expansion laws are outside.", "DESIGN.md 4 C20")
+      "closed-form oracle for all c and all inputs in bound; GreedyFixed with a 2-char body never yields below its minimum; which "
+      "operator piece() builds for r?, r*, r+, r{n,m} and their reluctant forms (verbatim slice, abstract term with symbolic static "
+      "facts): bounds, greediness, fixed/variable family, r{n,m} on nullable r keeps m, zero-length r, quantified anchors. Sequence "
+      "flattening, alternation laws and capturing->non-capturing are outside.", "DESIGN.md 4 C20")
 
 na("C04", "the replace/tokenize/analyze scan loops build a String/Vec per item from symbolic-length slices of the haystack; Kani 0.68 "
    "answers with spurious pointer failures or times out (probes P14, P27) - no sound solver verdict obtainable; the substitution "
    "step of replace is decided under C15")
-na("C09", "class set algebra runs through ICU's CodePointInversionListBuilder, which exhausts memory/time under CBMC even for concrete "
-   "3-item classes (probes P15, P18); the class parser cannot take symbolic text (P26)")
 na("C10", "finite Unicode data diff with no symbolic dimension beyond one code point; materialising \\p{..}, \\d, \\w iterates ICU tries "
    "(out of CBMC's reach) and the oracle would be a second Unicode database; the category-name mapping is decided under C07")
 na("C16", "nullability is computed by running the whole compiled matcher on the empty string (compiler + Sequence: probes P1/P3); the "
